@@ -2,6 +2,7 @@
 from .frontend import AnalysisBroken
 from .ir import base_name, const_of, LANG_STRUCT
 from .paths import feasible_walks
+from .context import SETUP_FUNCS
 
 
 # ---------- small expression classifiers on mem2reg SSA
@@ -46,8 +47,12 @@ def cond_class(f, v):
             if cb == 0 and p in ('eq', 'ne'): return ('nul', l, p == 'eq')
             if cb == 0 and p == 'slt' and sx == 'sext': return ('nonascii', l, True)
             if cb == 0 and p == 'sge' and sx == 'sext': return ('nonascii', l, False)
-            if cb == 127 and p == 'ugt' and sx == 'zext': return ('nonascii', l, True)
-            if cb == 128 and p == 'uge' and sx == 'zext': return ('nonascii', l, True)
+            if sx == 'zext':
+                # unsigned byte promoted to int: c > 0x7f, c >= 0x80 and their negations (signed or unsigned predicate on the int)
+                if cb == 127 and p in ('ugt', 'sgt'): return ('nonascii', l, True)
+                if cb == 128 and p in ('uge', 'sge'): return ('nonascii', l, True)
+                if cb == 128 and p in ('ult', 'slt'): return ('nonascii', l, False)
+                if cb == 127 and p in ('ule', 'sle'): return ('nonascii', l, False)
             return ('constcmp', l, p, cb)
         return None
     la, lb = byte_load(f, a), byte_load(f, b)
@@ -182,9 +187,17 @@ def features_of(P, g, call=None):
                     c = cond_class(h, {'k': 'i', 'id': i.id}) if i.op == 'icmp' else None
                     if c and c[0] == 'nonascii': skip = True
     counter = None
+    def from_arg2(v, d=0):
+        v = strip_int(g, v)
+        if v == {'k': 'a', 'n': 2}: return True
+        i_ = inst_of(g, v)
+        if i_ is None or d > 5: return False
+        if i_.op == 'phi': return any(from_arg2(x, d + 1) for x, _ in i_.d['incoming'] if vk(x) != ('i', i_.id))
+        if i_.op in ('add', 'sub'): return any(from_arg2(x, d + 1) for x in i_.ops)
+        return False
     if len(g.params) >= 3 and g.params[2]['bits'] in (32, 64) and not g.params[2]['ty'].endswith('*'):
         for i in g.all_insts():
-            if i.op == 'icmp' and any(strip_int(g, v) == {'k': 'a', 'n': 2} for v in i.ops):
+            if i.op == 'icmp' and any(from_arg2(v) for v in i.ops):
                 counter = i
     nconst = const_of(call.ops[2]) if (call is not None and len(call.ops) > 2) else None
     prefix = counter is not None and (nconst is None or nconst != 0)
@@ -247,11 +260,54 @@ def dispatch(ctx, rep):
             for i, t in P.calls(f):
                 if t == ('direct', ls.name):
                     n += 1
+                    if len(i.ops) != 3 or not (ls.params[0]['ty'].endswith('polyseed_lang*') and ls.params[2]['ty'].endswith(')*')):
+                        rep.notes.append('CMP-1: lang_search has an unrecognised signature: the search-site rule is not applied'); continue
                     cv = i.ops[2]; ci = inst_of(f, cv)
                     ok = ci is not None and ci.op == 'call' and P.call_target(ci) == ('direct', gc.name) and ci.ops[0] == i.ops[0]
                     rep.check(ok, 'search at %s uses get_comparer of the language it searches' % i.loc, i.loc, '%s search site' % base_name(f.name),
                               sample={'site': i.loc}, key='CMP-1|site|%s' % base_name(f.name))
-        rep.instances(n, 2, 'word search sites')
+        rep.instances(n, 1, 'word search sites')
+        word_readers(ctx, rep, P, wrappers)
+
+
+def word_readers(ctx, rep, P, wrappers):
+    rep.rule('CMP-7', 'who may read word bytes: on the decoding side the bytes of the word-list strings are read only inside the comparators that get_comparer '
+             'dispatches (and the helpers they call), so no lookup can accept a token by a rule of its own; the other readers are the phrase writer on the '
+             'encoding side and the set-up self-check. Every byte load / libc string call whose address may point (inclusion-based points-to) into a word '
+             'string is attributed to its function')
+    T = ctx.tables(); pts = P.points_to()
+    wordobjs = set()
+    for g in P.globals.values():
+        if g['ty'] == '%' + LANG_STRUCT and 'init' in g and g['init']['k'] == 'struct':
+            ft = P.field_table(LANG_STRUCT)
+            for fl in g['init']['fields']:
+                if ft.get(fl['off'], ('',))[0] == 'words' and fl['v']['k'] == 'array':
+                    wordobjs |= {('global', e['name']) for e in fl['v']['elems'] if e['k'] == 'gref'}
+    rep.instances(len(wordobjs), 10, 'word string objects')
+    dec = set()
+    for r in ('polyseed_decode', 'polyseed_decode_explicit', 'polyseed_load', 'polyseed_create', 'polyseed_crypt', 'polyseed_keygen', 'polyseed_store', 'polyseed_free'):
+        if r in P.defined: dec |= P.reachable_from([r])
+    cmp_closure = P.reachable_from(sorted(wrappers))
+    defined = set(P.defined)
+    other = defined - dec         # encoder-only, set-up-only (self-check) and unreachable functions
+    allowed = cmp_closure | other
+    readers = {}
+    for f in P.defined.values():
+        for i in f.all_insts():
+            addrs = []
+            if i.op == 'load' and i.d['bits'] == 8: addrs = [i.ops[0]]
+            elif i.op == 'call' and not P.is_dbg(i):
+                t = P.call_target(i)
+                if t[0] == 'direct' and t[1] in ('strcmp', 'strncmp', 'memcmp', 'strlen', 'strncasecmp', 'strcasecmp', 'strchr', 'strstr', 'memchr'):
+                    addrs = [o for o in i.ops[:2] if o['k'] in ('i', 'a', 'g', 'ce')]
+            for a in addrs:
+                if pts.of(f, a) & wordobjs:
+                    readers.setdefault(f.name, i)
+    for name, i in sorted(readers.items()):
+        kind = 'comparator' if name in cmp_closure else ('not on the decoding side (encoder / set-up self-check)' if name in other else 'decoding-side function outside the comparators')
+        rep.check(name in allowed, '%s reads word bytes as %s' % (base_name(name), kind), i.loc, base_name(name), detail={'first_read': i.loc, 'role': kind},
+                  sample={'function': base_name(name), 'role': kind}, key='CMP-7|%s' % base_name(name))
+    rep.check(any(n in cmp_closure for n in readers), 'the comparators are among the readers (vacuity guard)', loc_gc(P.fn('get_comparer')), 'get_comparer', key='CMP-7|vacuity')
 
 
 def loc_gc(f):
@@ -400,6 +456,20 @@ def cond_facts(g, v, outcome):
     return out
 
 
+def switch_facts(g, t, succ):
+    """switch (byte under a cursor): on a case edge the byte equals the case constant, on the default edge it differs from every case constant"""
+    ld = byte_load(g, t.ops[0])
+    if ld is None: return set()
+    key, off = pos_key(g, ld.ops[0])
+    if off != 0: return set()
+    cases_here = [c for c, tb in t.d['cases'] if tb == succ]
+    if succ == t.d['default'] and not cases_here:
+        return {('nn', key)} if any(c == 0 for c, _ in t.d['cases']) else set()
+    if cases_here and succ != t.d['default'] and all(c != 0 for c in cases_here):
+        return {('nn', key)}
+    return set()
+
+
 def nonnul_dataflow(g):
     """forward must-analysis: IN[b] = facts (byte under SSA cursor value known non-NUL / two bytes equal) holding on every path to b.
     SSA values are immutable, so nothing is killed; short-circuit conditions (phi of i1 with constant-false arms) are handled."""
@@ -421,6 +491,8 @@ def nonnul_dataflow(g):
             succs = g.succs[b]
             for k, s_ in enumerate(succs):
                 f = set(IN[b])
+                if t.op == 'switch':
+                    f |= switch_facts(g, t, s_)
                 if t.op == 'br' and len(t.ops) == 3 and succs[0] != succs[1]:
                     outcome = (k == 0)
                     ci = inst_of(g, t.ops[0])
@@ -558,6 +630,14 @@ def nfkd_before_split(ctx, rep):
                     if a == b and a is not None and f.insts[a[1]].op == 'alloca': ok = True
                 rep.check(ok, 'str_split at %s works on the buffer a dominating utf8_nfkd_lazy call filled' % s_.loc, s_.loc, '%s tokenises un-normalised input' % base_name(f.name),
                           sample={'function': f.name, 'split': s_.loc}, key='CMP-2|%s' % base_name(f.name))
+                buf = addr_base(f, s_.ops[0])[0]
+                if ok and buf is not None:
+                    def root(v):
+                        while v['k'] == 'i' and f.insts[v['id']].op in ('getelementptr', 'bitcast'): v = f.insts[v['id']].ops[0]
+                        return vk(v)
+                    edits = [i for i in f.all_insts() if i.op == 'store' and root(i.ops[1]) == buf]
+                    rep.check(not edits, 'the tokeniser sees the normaliser\'s output unedited: %s itself stores nothing into the phrase buffer' % base_name(f.name), edits[0].loc if edits else s_.loc,
+                              '%s edits the normalised phrase before / after tokenising' % base_name(f.name), detail=[e.loc for e in edits[:3]], key='CMP-2|%s|edit' % base_name(f.name))
                 ph = [i for i, t in calls if t[0] == 'direct' and base_name(t[1]).startswith('polyseed_phrase_decode')]
                 okp = bool(ph) and all(addr_base(f, p.ops[0])[0] == addr_base(f, s_.ops[1])[0] and f.inst_dominates(s_, p) for p in ph)
                 rep.check(okp, 'the phrase search receives the token array str_split filled', s_.loc, base_name(f.name), key='CMP-2|%s|tokens' % base_name(f.name))
